@@ -3,6 +3,7 @@ package tree
 import (
 	"bytes"
 	_ "embed"
+	"errors"
 	"fmt"
 	"io"
 	"os"
@@ -57,11 +58,15 @@ func NewHTML(htmlContent utils.ContentInput, baseUrl string, urlFetcher utils.Ur
 	}
 
 	var out HTML
-	// html.Parse wraps the <html> tag
-	out.Root = (*utils.HTMLNode)(root.FirstChild)
-	if out.Root.Type == html.DoctypeNode {
-		out.Root = (*utils.HTMLNode)(out.Root.NextSibling)
+	// html.Parse wraps the <html> tag, after an optional doctype and comments
+	rootElement := root.FirstChild
+	for rootElement != nil && rootElement.Type != html.ElementNode {
+		rootElement = rootElement.NextSibling
 	}
+	if rootElement == nil {
+		return nil, errors.New("invalid html input : no root element")
+	}
+	out.Root = (*utils.HTMLNode)(rootElement)
 	out.Root.Parent = nil
 	out.BaseUrl = utils.FindBaseUrl(root, result.BaseUrl)
 	out.UrlFetcher = urlFetcher
